@@ -4,7 +4,7 @@ from __future__ import annotations
 import ast
 
 from ..cfg import CFG, always_raises
-from ..core import AnalysisError, FunctionInfo, ModuleInfo, calls_in, call_name, dotted, unparse, walk_no_nested
+from ..core import const_str, AnalysisError, FunctionInfo, ModuleInfo, calls_in, call_name, dotted, unparse, walk_no_nested
 from ..report import Ctx
 from ..resolve import get_resolver
 from .c04 import _module_bus_calls
@@ -428,4 +428,23 @@ def r5_shared_objects_not_passed_to_mutators(ctx: Ctx) -> None:
     ctx.ok("C19:no-shared-object-reaches-a-mutator", f"{n_sites} argument positions checked against {sum(1 for v in muts.values() if v)} parameter-mutating functions")
 
 
-RULES = [r1_census, r2_nobody_writes, r3_shared_buses_frozen, r4_per_instance_state, r5_shared_objects_not_passed_to_mutators]
+def r6_output_files_start_empty(ctx: Ctx) -> None:
+    """`repeating an assembly gives identical results`: the output file is opened for (binary) WRITING, which truncates it; opened for
+    appending, every rebuild adds another PATCH...EOF stream / another image behind the previous one."""
+    n = 0
+    for q in ("Program.assemble", "Program.assemble_as_patch", "Program.exports_symbol_file"):
+        fn = ctx.repo.try_func("a816.program", q)
+        if fn is None:
+            continue
+        for c in calls_in(fn.node):
+            if call_name(c) == "open" and len(c.args) >= 2:
+                mode = const_str(c.args[1])
+                if mode is None or "r" in mode:
+                    continue
+                n += 1
+                ctx.check("w" in mode and "a" not in mode and "+" not in mode and "x" not in mode, f"{fn.where}:open(..., {mode!r})", "output files are truncated when opened ('w' / 'wb')")
+    ctx.count("output_opens", n)
+    ctx.floor("output_opens", 2)
+
+
+RULES = [r1_census, r2_nobody_writes, r3_shared_buses_frozen, r4_per_instance_state, r5_shared_objects_not_passed_to_mutators, r6_output_files_start_empty]
